@@ -15,26 +15,76 @@ PTS = [[0.0, 0.0], [2.0, 0.0], [0.0, 2.0], [2.0, 2.0], [1.0, 0.7]]
 
 def gen(rng):
     return {"part": "unitlink", "pair": rng.randrange(len(PAIRS)), "dtype": rng.choice(["float", "float", "int"]),
-            "via": rng.choice(["direct", "scale", "nearest", "linear", "static"]), "values": [rng.randint(-30, 60) for _ in PTS],
+            "via": rng.choice(["direct", "scale", "nearest", "linear", "static", "trigger", "layout"]), "values": [rng.randint(-30, 60) for _ in PTS],
+            "order": rng.randrange(2), "days": rng.choice([2, 3, 4]),
             # the producer may hand over a quantity that is already in the *consumer's* units (converted to its own at the
             # push, back at the pull); the output may have to park the publication on disk
             "push_as_consumer": rng.random() < 0.3, "limit0": rng.random() < 0.3, "pulls": rng.choice([1, 2, 3])}
 
 
+def run_trigger(case):
+    """source (units su) >> TimeTrigger(in_info with su, out_info with du) >> consumer (units du), a few steps: every value the
+    consumer receives — the initial one and those of the run phase — is the source's value of that time, converted"""
+    from ..fmutil import limited
+    su, du, _f, _o = PAIRS[case["pair"]]
+    day = dt.timedelta(days=1)
+    vals = np.array(case["values"], dtype=float)
+    got = []
+    try:
+        src = fm.components.CallbackGenerator(
+            {"Out": (lambda t: vals + float((t - T0).days), fm.Info(time=None, grid=fm.UnstructuredPoints(PTS), units=su))}, start=T0, step=day)
+        trig = fm.components.TimeTrigger(in_info=fm.Info(time=None, grid=fm.UnstructuredPoints(PTS), units=su),
+                                         out_info=fm.Info(time=None, grid=fm.UnstructuredPoints(PTS), units=du), start=T0, step=day)
+        sink = fm.components.DebugConsumer({"In": fm.Info(time=None, grid=fm.UnstructuredPoints(PTS), units=du)},
+                                           callbacks={"In": lambda n, d, t: got.append(((t - T0).days, [float(x) for x in np.asarray(fm.data.get_magnitude(d)).reshape(-1)], str(d.units)))},
+                                           start=T0, step=day)
+        comp = fm.Composition([src, trig, sink] if case.get("order", 0) == 0 else [sink, trig, src])
+        src.outputs["Out"] >> trig.inputs["In"]
+        trig.outputs["Out"] >> sink.inputs["In"]
+        limited(60, comp.run, end_time=T0 + case.get("days", 3) * day)
+        return {"series": got}
+    except Exception as e:  # noqa
+        return {"err": type(e).__name__, "msg": str(e)[:160]}
+
+
+def oracle_trigger(case, impl):
+    su, du, f, o = PAIRS[case["pair"]]
+    if "err" in impl:
+        return ("data between compatible units crosses a link through a TimeTrigger", {"error": impl["err"], "msg": impl["msg"]})
+    if len(impl["series"]) < 2:
+        return ("the consumer behind a TimeTrigger receives the initial and the run-phase values", {"received": len(impl["series"])})
+    for day, vals, units in impl["series"]:
+        want = [(x + day) * f + o for x in case["values"]]
+        if len(vals) != len(want) or any(abs(a - b) > 1e-9 * max(1.0, abs(b)) for a, b in zip(vals, want)):
+            return ("data crossing a link with foreign units is converted with the factor and offset of dimensional analysis",
+                    {"from": su, "to": du, "via": "trigger", "day": day, "delivered": vals, "exact": want})
+        if units != str(fm.UNITS.Unit(du)):
+            return ("the delivered data carries the consumer's units", {"units": units, "expected": du})
+    return None
+
+
 def run(case):
+    if case["via"] == "trigger":
+        return run_trigger(case)
     su, du, _f, _o = PAIRS[case["pair"]]
     grid = fm.UnstructuredPoints(PTS)
     via = case["via"]
     static = via == "static"
+    in_grid = fm.UnstructuredPoints(PTS)
+    if via == "layout":
+        # the two ends name one grid in different layouts (a decreasing axis / reversed axes order on the consumer's side):
+        # the input re-arranges the data *and* converts it
+        grid = fm.UniformGrid((3, 3))
+        in_grid = fm.UniformGrid((3, 3), axes_increase=[True, False]) if case.get("order", 0) == 0 else fm.UniformGrid((3, 3), axes_reversed=True)
     out = fm.Output(name="out", static=static, info=fm.Info(time=None if static else T0, grid=grid, units=su))
-    inp = fm.Input(name="in", static=static, info=fm.Info(time=None, grid=fm.UnstructuredPoints(PTS), units=du))
+    inp = fm.Input(name="in", static=static, info=fm.Info(time=None, grid=in_grid, units=du))
     tmp = None
     try:
         if case.get("limit0"):
             import tempfile
             tmp = tempfile.mkdtemp(prefix="finam_verif_")
             out.memory_limit, out.memory_location = 0, tmp
-        if via in ("direct", "static"):
+        if via in ("direct", "static", "layout"):
             out >> inp
         elif via == "scale":
             out >> fm.adapters.Scale(1.0) >> inp
@@ -45,7 +95,9 @@ def run(case):
         inp.ping()
         inp.exchange_info()
         data = np.array(case["values"], dtype=int if case["dtype"] == "int" else float)
-        if case.get("push_as_consumer"):
+        if via == "layout":
+            data = data[:4].reshape(2, 2)
+        if case.get("push_as_consumer") and via != "layout":
             f, o = PAIRS[case["pair"]][2], PAIRS[case["pair"]][3]
             data = fm.UNITS.Quantity(np.array(case["values"], dtype=float) * f + o, du)   # the same field, stated in the consumer's units
         out.push_data(data, None if static else T0)
@@ -67,10 +119,15 @@ def run(case):
 
 
 def oracle(case, impl):
+    if case["via"] == "trigger":
+        return oracle_trigger(case, impl)
     su, du, f, o = PAIRS[case["pair"]]
     if "err" in impl:
         return ("data between compatible units crosses the link", {"error": impl["err"], "msg": impl["msg"]})
     want = [x * f + o for x in case["values"]]
+    if case["via"] == "layout":
+        # (where each value lands is C15's business: compared as multisets)
+        want, impl = sorted(want[:4]), dict(impl, ok=sorted(impl["ok"]))
     if len(impl["ok"]) != len(want) or any(abs(a - b) > 1e-9 * max(1.0, abs(b)) for a, b in zip(impl["ok"], want)):
         return ("data crossing a link with foreign units is converted with the factor and offset of dimensional analysis",
                 {"from": su, "to": du, "via": case["via"], "dtype": case["dtype"], "delivered": impl["ok"], "exact": want})
